@@ -108,6 +108,30 @@ func runC07(r *fw.Runner) {
 		{"update-commitment-equals-current-update-key", "u", false, func(h *histCtx, s *opStep) {
 			s.Spec.UpdateCommitment = s.Spec.Signer.Commitment(h.code)
 		}},
+		{"update-commitment-equals-current-update-key-with-its-nonce", "u", false, func(h *histCtx, s *opStep) {
+			s.Spec.Signer = s.Spec.Signer.WithNonce(h.r, int(h.proto.NonceSize))
+			s.Spec.UpdateCommitment = s.Spec.Signer.Commitment(h.code)
+		}},
+		{"update-commitment-is-current-key-without-its-nonce (valid: another key)", "u", true, func(h *histCtx, s *opStep) {
+			bare := *s.Spec.Signer
+			bare.Nonce = ""
+			s.Spec.Signer = s.Spec.Signer.WithNonce(h.r, int(h.proto.NonceSize))
+			s.Spec.UpdateCommitment = bare.Commitment(h.code)
+		}},
+		{"update-commitment-is-current-key-with-another-nonce (valid: another key)", "u", true, func(h *histCtx, s *opStep) {
+			s.Spec.UpdateCommitment = s.Spec.Signer.WithNonce(h.r, int(h.proto.NonceSize)).Commitment(h.code)
+			s.Spec.Signer = s.Spec.Signer.WithNonce(h.r, int(h.proto.NonceSize))
+		}},
+		{"recovery-commitment-equals-current-recovery-key-with-its-nonce", "r", false, func(h *histCtx, s *opStep) {
+			s.Spec.Signer = s.Spec.Signer.WithNonce(h.r, int(h.proto.NonceSize))
+			s.Spec.RecoveryCommitment = s.Spec.Signer.Commitment(h.code)
+		}},
+		{"recovery-commitment-is-current-key-without-its-nonce (valid: another key)", "r", true, func(h *histCtx, s *opStep) {
+			bare := *s.Spec.Signer
+			bare.Nonce = ""
+			s.Spec.Signer = s.Spec.Signer.WithNonce(h.r, int(h.proto.NonceSize))
+			s.Spec.RecoveryCommitment = bare.Commitment(h.code)
+		}},
 		{"recovery-commitment-equals-current-recovery-key", "r", false, func(h *histCtx, s *opStep) {
 			s.Spec.RecoveryCommitment = s.Spec.Signer.Commitment(h.code)
 		}},
